@@ -1063,6 +1063,15 @@ func main() {
 			cer = startCeremony(n, t, nv, seed)
 			run.Count("p2pcer")
 			ok := cer.waitFor(func() bool { return len(cer.pool.r1) == n && len(cer.pool.p2p) == n*(n-1) }, 30*time.Second)
+			// a starved machine can make a send over the mock network or a wait time out: a valid ceremony is started
+			// afresh (twice at most) before its failure is believed
+			for attempt := 0; !ok && valid && attempt < 2; attempt++ {
+				run.Count("p2pcer:retried")
+				cer.close()
+				time.Sleep(time.Duration(attempt+1) * 2 * time.Second)
+				cer = startCeremony(n, t, nv, seed)
+				ok = cer.waitFor(func() bool { return len(cer.pool.r1) == n && len(cer.pool.p2p) == n*(n-1) }, 60*time.Second)
+			}
 			if !ok {
 				if valid {
 					run.Violate("frost:ceremony_failed", fmt.Sprintf("n=%d t=%d vals=%d: round 1 messages were not all sent", n, t, nv))
